@@ -104,12 +104,18 @@ StatusPushed(f) == PByte(f) + 48
 FlagsOf(b) == [c |-> b % 2 = 1, z |-> (b \div 2) % 2 = 1, i |-> (b \div 4) % 2 = 1, d |-> (b \div 8) % 2 = 1,
                v |-> (b \div 64) % 2 = 1, n |-> (b \div 128) % 2 = 1]
 
+(* An instruction whose last byte lies at $FFFF (so that the pc would wrap to $0000 behind it), and jmp ($ffff).  *)
+(* The 6502 wraps; the emulator crate's unchecked u16 additions panic there in mos' debug build (finding           *)
+(* EmulatorOverflowAtTopOfMemory).  Step leaves the state open; the judge excuses a crash only under this witness. *)
+TopEdge(c) == LET d == Dec[Rd(c.mem, c.pc)] IN
+              d.ok /\ (c.pc + ModeLen(d.mode) >= 65536 \/ (d.mode = "ind" /\ Rd16(c.mem, (c.pc + 1) % 65536) = 65535))
+
 (* one instruction.  The caller decides what a BRK (opcode 0) means; here it is outside the subset.   *)
 (* mirror = TRUE: implementation-shaped reading of decimal mode (see the header).                     *)
 StepM(c, mirror) ==
   LET d == Dec[Rd(c.mem, c.pc)] IN
   IF c.unspec \/ ~d.ok \/ d.mn \notin Modelled THEN [c EXCEPT !.unspec = TRUE]
-  ELSE IF d.mode = "ind" /\ Rd16(c.mem, (c.pc + 1) % 65536) = 65535 THEN [c EXCEPT !.unspec = TRUE]   \* vector at $FFFF: left open
+  ELSE IF TopEdge(c) THEN [c EXCEPT !.unspec = TRUE]
   ELSE
   LET mn == d.mn
       mode == d.mode
